@@ -54,7 +54,7 @@ def value_pool(prop):
         pool = []
         for code in CODEPOINTS:
             pool.extend(delimiter_spellings(code))
-        pool += ["", "ab", "'ab'", "tabx", "1 2", "0", "0x0", "'\\x00'", "space", "comma", '"ab"', "''", "1114112", "0x110000", "TAB,", "cr lf"]
+        pool += ["", "ab", "'ab'", "tabx", "1 2", "0", "0x0", "'\\x00'", "space", "comma", '"ab"', "''", "1114112", "0x110000", "2147483647", "2147483648", "0x100000000", "99999999999999999999", "0xffffffffffffffffffff", "TAB,", "cr lf"]
         # numbers only in Python's eyes: octal and binary prefixes, digit groups (the documented codes are decimal and 0x-hex)
         pool += ["4_4", "0x2_c", "0x_2c", "0o54", "0O54", "0b101100", "0B101100", "1_0", "054_"]
         return pool
